@@ -319,3 +319,5 @@ def run(ctx):
     ctx.guarded("C04.bareword", lambda c: c09.r_bareword(c, "C04.bareword"))
     # the repeating-member bounds of map tables (`*N tstr => T`): both validators against the same oracle, hence against each other
     ctx.guarded("C04.repeatcount", lambda c: c09.r_repeatcount(c, "C04.repeatcount"))
+    import c08
+    ctx.guarded("C04.groupref", lambda c: c08.r_groupref(c, rid="C04.groupref"))
